@@ -124,7 +124,7 @@ func DecodePostgres(data []byte) (PostgresRow, error) {
 	}
 
 	pos = bytes.IndexByte(data, credentialsDelimiter)
-	if pos < 0 {
+	if pos < openPos {
 		return row, fmt.Errorf("client end is not found")
 	}
 
@@ -138,7 +138,7 @@ func DecodePostgres(data []byte) (PostgresRow, error) {
 	}
 
 	pos = bytes.IndexByte(data, credentialsDelimiter)
-	if pos < 0 {
+	if pos < openPos {
 		return row, fmt.Errorf("db end is not found")
 	}
 
@@ -152,7 +152,7 @@ func DecodePostgres(data []byte) (PostgresRow, error) {
 	}
 
 	pos = bytes.IndexByte(data, logDelimiter)
-	if pos < 0 {
+	if pos < openPos {
 		return row, fmt.Errorf("user end is not found")
 	}
 
